@@ -1717,3 +1717,103 @@ def rule_drv_coerce(ctx, which='drivers'):
             r.ok(construct=_f(fi))
     r.floor = 6
     return r
+
+
+def _uninit_kernel_findings(fn, out_index):
+    """kernels: (a) an uninitialised allocation written inline as a call argument anywhere but at the callee's output position;
+    (b) a local bound to numpy.empty / empty_like that is read but never written (no subscript store, no `out=` / output position,
+    no in-place update, no fill / copyto) - whoever reads it sees what the allocator found in memory.  out_index(call) -> position of
+    the callee's output parameter among the positional arguments, or None"""
+    out = []
+    empties = {}
+    for st in walk_no_nested(fn):
+        if isinstance(st, ast.Assign) and len(st.targets) == 1 and isinstance(st.targets[0], ast.Name) and _alloc_kind(st.value) == 'empty':
+            empties.setdefault(st.targets[0].id, []).append(st)
+    for c in walk_no_nested(fn):
+        if not isinstance(c, ast.Call):
+            continue
+        oi = out_index(c)
+        for i, a in enumerate(c.args):
+            if _alloc_kind(a) == 'empty' and oi != i:
+                out.append((a, 'passes an uninitialised array (`%s`) as an input of `%s`' % (norm(a)[:40], norm(c.func)[:30])))
+        for k in c.keywords:
+            if _alloc_kind(k.value) == 'empty' and k.arg not in ('out', 'work'):
+                out.append((k.value, 'passes an uninitialised array (`%s`) as `%s=` of `%s`' % (norm(k.value)[:40], k.arg, norm(c.func)[:30])))
+    stored_names = {x.id for n in ast.walk(fn) if isinstance(n, ast.Name) and isinstance(n.ctx, ast.Store) for x in [n]}
+    for name, sts in empties.items():
+        if len(sts) != 1 or sum(1 for n in ast.walk(fn) if isinstance(n, ast.Name) and n.id == name and isinstance(n.ctx, ast.Store)) != 1:
+            continue
+        written = False
+        for n in walk_no_nested(fn):
+            tg = n.targets if isinstance(n, ast.Assign) else ([n.target] if isinstance(n, ast.AugAssign) else [])
+            for t in tg:
+                b = t
+                while isinstance(b, (ast.Subscript, ast.Attribute)):
+                    b = b.value
+                if isinstance(b, ast.Name) and b.id == name and not isinstance(t, ast.Name):
+                    written = True
+                if isinstance(n, ast.AugAssign) and isinstance(t, ast.Name) and t.id == name:
+                    written = True
+            if isinstance(n, ast.Call):
+                oi = out_index(n)
+                if any(k.arg in ('out', 'work') and any(isinstance(x, ast.Name) and x.id == name for x in ast.walk(k.value)) for k in n.keywords):
+                    written = True
+                if oi is not None and oi < len(n.args) and any(isinstance(x, ast.Name) and x.id == name for x in ast.walk(n.args[oi])):
+                    written = True
+                d = dotted_name(n.func) or ''
+                if d in ('numpy.copyto', 'numpy.put', 'numpy.place') and n.args and any(isinstance(x, ast.Name) and x.id == name for x in ast.walk(n.args[0])):
+                    written = True
+                # handed to a routine outside numpy / scipy / the kernels of the package (a compiled extension): it may be a work or output buffer there
+                head = d.split('.')[0] if d else ''
+                if head not in ('numpy', 'scipy', 'math', 'cls', 'self', 'UTPM', '') and out_index(n) is None \
+                        and any(isinstance(x, ast.Name) and x.id == name for a_ in list(n.args) + [k.value for k in n.keywords] for x in ast.walk(a_)):
+                    written = True
+                if isinstance(n.func, ast.Attribute) and n.func.attr in ('fill', 'sort', 'itemset', 'put') and any(isinstance(x, ast.Name) and x.id == name for x in ast.walk(n.func.value)):
+                    written = True
+            # an alias (`z_data = tmp`, a view) may be written instead: not decided here
+            if isinstance(n, ast.Assign) and isinstance(n.value, (ast.Name, ast.Subscript, ast.Attribute)) \
+                    and any(isinstance(x, ast.Name) and x.id == name for x in ast.walk(n.value)) and n is not sts[0]:
+                written = True
+            if isinstance(n, (ast.Return, ast.Yield)) and n.value is not None and any(isinstance(x, ast.Name) and x.id == name for x in ast.walk(n.value)):
+                pass
+        reads = [n for n in walk_no_nested(fn) if isinstance(n, ast.Name) and n.id == name and isinstance(n.ctx, ast.Load)]
+        if not written and reads:
+            out.append((sts[0], 'is read (`%s`) but never written: its contents are whatever the allocator found in memory' % name))
+    return out
+
+
+def rule_uninit_kernels(ctx):
+    r = RuleResult('R-uninit.kernels', 'in the kernels an array from numpy.empty / empty_like is a destination, never a source: it is passed inline only at the '
+                                       'output position of the callee, and a local bound to one is written (store, `out=`, in-place update) before anyone '
+                                       'can read it - a work array that is *used as zeros* must come from numpy.zeros (complements E2, which tracks which '
+                                       'coefficients are defined, not that an allocation supplies the value 0)')
+    m = ctx.model
+    import json
+    import os
+    try:
+        known = json.load(open(os.path.join(os.path.dirname(os.path.abspath(__file__)), 'known_out_positions.json')))
+    except Exception:
+        known = {}
+    by_name = {k.split('.')[-1]: v for k, v in known.items()}
+
+    def out_index(c):
+        nm = c.func.attr if isinstance(c.func, ast.Attribute) else (c.func.id if isinstance(c.func, ast.Name) else None)
+        fi_ = m.lookup_method('UTPM', nm) if nm else None
+        if fi_ is not None and 'out' in fi_.value_params():
+            return fi_.value_params().index('out')
+        return by_name.get(nm)
+    probe = ast.parse("def _pb_sign(cls, ybar_data, x_data, y_data, out=None):\n    tmp = numpy.empty_like(x_data)\n    cls._amul(ybar_data, tmp, out)\n").body[0]
+    if len(_uninit_kernel_findings(probe, lambda c: 2 if isinstance(c.func, ast.Attribute) and c.func.attr == '_amul' else None)) != 1:
+        r.unknown('R-uninit.kernels:selftest', 'the matcher no longer recognises its positive example')
+    mi = m.modules.get('algopy.utpm.algorithms')
+    fns = list(mi.functions.values())
+    for ci in mi.classes.values():
+        fns.extend(ci.methods.values())
+    for fi in fns:
+        hits = _uninit_kernel_findings(fi.node, out_index)
+        for node, why in hits:
+            r.bad(Finding('R-uninit.kernels', _f(fi), norm(node)[:50], '%s: `%s` %s' % (fi.qualname, norm(node)[:50], why), fi.file, true_line(node.lineno)))
+        if not hits:
+            r.ok(construct=_f(fi))
+    r.floor = 80
+    return r
